@@ -274,6 +274,10 @@ struct Evals<F: Function> {
     ie: ShapeTracingEval<F::IntervalEval>,
     fe: ShapeBulkEval<F::FloatSliceEval>,
     ge: ShapeBulkEval<F::GradSliceEval>,
+    /// simplification workspace and function storage handed from one shape's
+    /// child to the next shape's simplification (as the renderers' workers do)
+    ws: F::Workspace,
+    fstash: Vec<F::Storage>,
 }
 
 impl<F: Function + Clone> Evals<F> {
@@ -283,6 +287,8 @@ impl<F: Function + Clone> Evals<F> {
             ie: Shape::<F>::new_interval_eval(),
             fe: Shape::<F>::new_float_slice_eval(),
             ge: Shape::<F>::new_grad_slice_eval(),
+            ws: Default::default(),
+            fstash: vec![],
         }
     }
 }
@@ -726,8 +732,20 @@ fn c14_backend<F: Function + MathFunction + Clone>(
     // simplification may drop variables but never renumbers them
     if let Some(tr) = trace {
         rep.count("op.simplify_then_eval", 1);
+        // fresh objects, or the kept workspace and the storage recycled from
+        // the child of whatever shape this run simplified before
+        let reuse = ch(&mut |c| c.choose("simp_storage", 2)) == 1;
+        if reuse && !evs.fstash.is_empty() {
+            rep.count("fault.simplify_into_storage_of_other_shape", 1);
+        }
         let r = rt::catch(|| {
-            let child = shape.ez_simplify(&tr).expect("trace from evaluator");
+            let child = if reuse {
+                shape
+                    .simplify(&tr, evs.fstash.pop().unwrap_or_default(), &mut evs.ws)
+                    .expect("trace from evaluator")
+            } else {
+                shape.ez_simplify(&tr).expect("trace from evaluator")
+            };
             let tape = child.ez_point_tape();
             let ev = &mut evs.pe;
             let a: Vec<f32> = pts
@@ -751,6 +769,10 @@ fn c14_backend<F: Function + MathFunction + Clone>(
                 )
                 .expect("all vars supplied")
                 .to_vec();
+            drop((tape, ft));
+            if reuse {
+                evs.fstash.extend(child.recycle());
+            }
             (a, b)
         });
         match r {
@@ -1227,6 +1249,9 @@ struct System {
     /// per term: written as `a/2 * v + a/2 * v` (the same parameter twice in
     /// one equation; halving is exact, so the system is unchanged)
     split: Vec<Vec<bool>>,
+    /// every coefficient and right-hand side was multiplied by this power of
+    /// two (exact in f32): the same well-conditioned system in other units
+    scale: f32,
 }
 
 fn gen_system(ch: &mut Chooser) -> System {
@@ -1329,6 +1354,26 @@ fn gen_system(ch: &mut Chooser) -> System {
                 .sum::<f64>() as f32
         })
         .collect();
+    // the whole system in other units: a common power-of-two factor on every
+    // coefficient and right-hand side changes neither the solution nor the
+    // conditioning, and is exact in f32
+    let scale: f32 = match ch.choose("scale_kind", 6) {
+        4 => 0.5f32.powi(1 + ch.choose("scale_down", 20) as i32),
+        5 => 2f32.powi(1 + ch.choose("scale_up", 13) as i32),
+        _ => 1.0,
+    };
+    let mut rows = rows;
+    let mut b = b;
+    if scale != 1.0 {
+        for r in rows.iter_mut() {
+            for t in r.iter_mut() {
+                t.1 *= scale;
+            }
+        }
+        for v in b.iter_mut() {
+            *v *= scale;
+        }
+    }
     // sometimes the caller's parameter map also holds free parameters that no
     // equation mentions: they must still get a value ("exactly the free
     // parameters"); nothing constrains them, so only their presence is checked
@@ -1355,6 +1400,7 @@ fn gen_system(ch: &mut Chooser) -> System {
         b,
         exact,
         split,
+        scale,
     }
 }
 
@@ -1403,11 +1449,12 @@ pub fn run_c19(st: &Shared, _tier: Tier) -> RunReport {
     let vars: Vec<Var> = (0..sys.n).map(|_| Var::new()).collect();
     let nfree = sys.free.iter().filter(|f| **f).count();
     rep.sample = format!(
-        "n={} free={} rows={} exact={} rows[0]={:?}",
+        "n={} free={} rows={} exact={} scale={:e} rows[0]={:?}",
         sys.n,
         nfree,
         sys.rows.len(),
         sys.exact,
+        sys.scale,
         sys.rows.first()
     );
     rep.count("fault.fresh_hash_keys_and_var_ids", 1);
@@ -1468,7 +1515,12 @@ pub fn run_c19(st: &Shared, _tier: Tier) -> RunReport {
         })
         .collect();
     let bmax = sys.b.iter().map(|v| v.abs()).fold(0.0f32, f32::max) as f64;
-    let tol = 1e-3 * (1.0 + bmax);
+    let tol = 1e-3 * (sys.scale as f64 + bmax);
+    if sys.scale < 1.0 {
+        rep.count("op.system_scaled_down", 1);
+    } else if sys.scale > 1.0 {
+        rep.count("op.system_scaled_up", 1);
+    }
 
     // signature: the column order this run's hash keys produced
     let sig = {
@@ -1542,9 +1594,10 @@ pub fn run_c19(st: &Shared, _tier: Tier) -> RunReport {
                 "C19",
                 format!("{what}_residual"),
                 format!(
-                    "max |residual| {r:e} > {tol:e} (n={} free={nfree} rows={})",
+                    "max |residual| {r:e} > {tol:e} (n={} free={nfree} rows={} coefficient scale {:e})",
                     sys.n,
-                    sys.rows.len()
+                    sys.rows.len(),
+                    sys.scale
                 ),
             );
             return None;
@@ -1571,7 +1624,7 @@ pub fn run_c19(st: &Shared, _tier: Tier) -> RunReport {
             .map(|((p, q), _)| (p - q).abs())
             .fold(0.0, f64::max);
         rep.checked_oracle += 1;
-        if !(d <= 1e-3 * (1.0 + bmax)) {
+        if !(d <= 1e-3 * (1.0 + bmax / sys.scale as f64)) {
             rep.violate(
                 "C19",
                 "backends_disagree",
